@@ -1,6 +1,6 @@
 (* Model/Exports.v — the executable entry points handed to extraction. *)
 From Coq Require Import ZArith List Bool.
-From Clip Require Import Base.Int64 Model.Arith Model.Trim Model.Minkowski Model.Measures.
+From Clip Require Import Base.Int64 Model.Arith Model.Trim Model.Minkowski Model.Measures Model.Simplify Model.SimplifyF64.
 Definition trim_faithful (p : list pt) (isOpen : bool) : list pt := TrimCollinear64 p isOpen.
 Definition trim_exact (p : list pt) (isOpen : bool) : list pt := trim col_exact p isOpen.
 Definition mink_model (pattern path : list pt) (isSum isClosed : bool) : option paths :=
